@@ -2114,7 +2114,11 @@ class StridedInterval:
             return self.copy()
 
         # the interval can be represented in tok bits
-        if (self.lower_bound & mask) == self.lower_bound and (self.upper_bound & mask) == self.upper_bound:
+        if (
+            self.lower_bound <= self.upper_bound
+            and (self.lower_bound & mask) == self.lower_bound
+            and (self.upper_bound & mask) == self.upper_bound
+        ):
             return StridedInterval(
                 bits=tok,
                 stride=self.stride,
@@ -2132,8 +2136,12 @@ class StridedInterval:
                 bits=tok, stride=self.stride, lower_bound=lower, upper_bound=upper, uninitialized=self.uninitialized
             )
 
-        if (self.upper_bound & mask == self.lower_bound & mask) and ((self.upper_bound - self.lower_bound) & mask == 0):
-            # This operation doesn't affect the stride. Stride should be 0 then.
+        if (
+            (self.upper_bound & mask == self.lower_bound & mask)
+            and ((self.upper_bound - self.lower_bound) & mask == 0)
+            and (self.stride & mask == 0)
+        ):
+            # Every member is congruent to the lower bound modulo 2**tok. Stride should be 0 then.
 
             bound = self.lower_bound & mask
 
@@ -2172,7 +2180,11 @@ class StridedInterval:
             return self.copy()
 
         # the interval can be represented in tok bits
-        if (self.lower_bound & mask) == self.lower_bound and (self.upper_bound & mask) == self.upper_bound:
+        if (
+            self.lower_bound <= self.upper_bound
+            and (self.lower_bound & mask) == self.lower_bound
+            and (self.upper_bound & mask) == self.upper_bound
+        ):
             return StridedInterval(
                 bits=tok,
                 stride=self.stride,
@@ -2199,8 +2211,12 @@ class StridedInterval:
                 bits=tok, stride=self.stride, lower_bound=lower, upper_bound=upper, uninitialized=self.uninitialized
             )
 
-        if (self.upper_bound & mask == self.lower_bound & mask) and ((self.upper_bound - self.lower_bound) & mask == 0):
-            # This operation doesn't affect the stride. Stride should be 0 then.
+        if (
+            (self.upper_bound & mask == self.lower_bound & mask)
+            and ((self.upper_bound - self.lower_bound) & mask == 0)
+            and (self.stride & mask == 0)
+        ):
+            # Every member is congruent to the lower bound modulo 2**tok. Stride should be 0 then.
 
             bound = self.lower_bound & mask
 
